@@ -36,6 +36,11 @@ def run(ctx):
         "scheduler. Proved instead: a scan at or after the deadline releases the entry "
         "(released_by_first_scan_after_deadline) and every channel is scanned each tick when there "
         "are at most 20 (uniqRands_perm)",
+        "PARTIAL (lateness): queueScanLoop scans a cached channel list refreshed every QueueScanRefreshInterval "
+        "(5 s by default): a channel created since the last refresh waits for the next one (measured: ~5 s late "
+        "with the defaults; harness/e1 TestVerifWallClock, VERIF_WALL_DEFAULT_REFRESH=1)",
+        "a deferred publish keeps its delay only while it is held in memory (property statement): a message that "
+        "spills to the topic's disk queue loses it (nsqd/topic.go put)",
         "an empty delay argument on TCP (`REQ id ` / `DPUB topic `) is the empty digit string and reads as 0",
     ]
     ctx.rule = ("numeric: generated spellings (0, 1, boundary±1, max, 2^63±1, 2^64±k, 40 digits, leading zeros, "
@@ -68,6 +73,7 @@ def run(ctx):
         corr_broken.append("harness build")
     else:
         run_all(ctx, binp, corr_broken, scale=1)
+        run_wall(ctx, binp, corr_broken)
         # search phase: a tie or a correspondence broke but no oracle failed → look harder
         if (ctx.broken_ties or corr_broken) and not ctx.violations:
             ctx.log("tie/correspondence broken without an oracle failure: searching with 10x the budget")
@@ -129,6 +135,26 @@ def run_all(ctx, binp, corr_broken, scale=1, search=False):
         for idx, a, b in diffs:
             ctx.log("model/impl disagree on `%s`: impl=%s model=%s" % (ops[idx][:300], a[:300], b[:300]))
             corr_broken.append("correspondence %s: %s" % (stream, ops[idx][:200]))
+
+
+def run_wall(ctx, binp, corr_broken):
+    """Client-side wall-clock scenarios (DPUB, REQ, msg_timeout, TOUCH with cap) on a daemon with the
+    default scan interval: only EARLY delivery is a failure; lateness is measured and reported."""
+    rc, out = ctx.run_cmd([binp, "-test.run", "^TestVerifWallClock$", "-test.count=1", "-test.timeout=300s"],
+                          timeout=330, env={"VERIF_SEED": ctx.seed, "VERIF_N": ctx.budget(1, 5), "VERIF_OUT": ctx.work})
+    if "no tests to run" in out:
+        return
+    for l in out.splitlines():
+        if l.startswith("ORACLE-FAIL"):
+            ctx.violation("wall-oracle:EARLY", l, "TestVerifWallClock seed %s\n%s\n" % (ctx.seed, l))
+    okl = [l for l in out.splitlines() if l.startswith("WALL-OK")]
+    if okl:
+        ctx.corr["wall_clock"] = {"summary": okl[0], "late": [l for l in out.splitlines() if l.startswith("WALL-LATE")][:10]}
+        m = re.search(r"scenarios=(\d+)", okl[0])
+        ctx.evaluations += int(m.group(1)) if m else 0
+    elif not any(l.startswith("ORACLE-FAIL") for l in out.splitlines()):
+        ctx.log("wall-clock scenarios did not complete (rc=%s):\n%s" % (rc, out[-1500:]))
+        corr_broken.append("wall-clock harness exit %s" % rc)
 
 
 def oracle_key(stream, line):
